@@ -8,6 +8,7 @@ import (
 	"os"
 	"path/filepath"
 	"runtime"
+	"runtime/debug"
 	"strings"
 	"sync"
 	"syscall"
@@ -38,7 +39,7 @@ func init() {
 		Cases:       c06Cases,
 		MinDistinct: 200,
 		Jobs:        8,
-		MemLimitMB:  4096,
+		MemLimitMB:  8192,
 	})
 }
 
@@ -107,7 +108,7 @@ func c06Cases(tier string, seed int64) []core.Case {
 				return c06FreshUsers(ctx, server, dotu)
 			}})
 			cases = append(cases, core.Case{ID: fmt.Sprintf("hangup-with-binding-request-in-flight/%s/dotu=%v", server, dotu), Run: func(ctx *core.Ctx) core.Result {
-				return c06HangupWhileBinding(ctx, server, dotu, map[string]int{"quick": 1500, "thorough": 30000}[tier])
+				return c06HangupWhileBinding(ctx, server, dotu, map[string]int{"quick": 1500, "thorough": 4000}[tier])
 			}})
 			if server == "ufs" {
 				cases = append(cases, core.Case{ID: fmt.Sprintf("flush-of-waiting-request/ufs/dotu=%v", dotu), Run: func(ctx *core.Ctx) core.Result {
@@ -1416,9 +1417,29 @@ func c06UfsFlushWaiting(ctx *core.Ctx, dotu bool) core.Result {
 // this case is exploration by repetition).
 func c06HangupWhileBinding(ctx *core.Ctx, server string, dotu bool, rounds int) core.Result {
 	var res core.Result
-	h := newHostile(ctx, &res, server, dotu)
+	// a fresh server every 1 000 connections: the scripted implementation and the session keep a record of every
+	// connection they have seen, and the worker's address space is limited
+	for done := 0; done < rounds && len(res.Violations) == 0 && res.Inconclusive == ""; done += 1000 {
+		n := rounds - done
+		if n > 1000 {
+			n = 1000
+		}
+		c06HangupChunk(ctx, &res, server, dotu, n)
+		runtime.GC()
+		debug.FreeOSMemory()
+	}
+	res.Evals += rounds
+	res.Count("hangups_with_a_binding_request_in_flight", int64(rounds))
+	res.Sig(fmt.Sprintf("hangup-while-binding|%s|%v", server, dotu))
+	res.Sample(map[string]interface{}{"scenario": "Twalk to a new fid / Tattach, immediate hang-up", "server": server, "rounds": rounds})
+	return res
+}
+
+func c06HangupChunk(ctx *core.Ctx, out *core.Result, server string, dotu bool, rounds int) {
+	res := out
+	h := newHostile(ctx, res, server, dotu)
 	if h == nil {
-		return res
+		return
 	}
 	defer h.done()
 	for round := 0; round < rounds && len(res.Violations) == 0; round++ {
@@ -1430,7 +1451,7 @@ func c06HangupWhileBinding(ctx *core.Ctx, server string, dotu bool, rounds int) 
 		r, err := c.Version(8192, h.ver(), W)
 		if err != nil || r.Msg == nil || !h.okRpc(c, &wire.Msg{Type: wire.Tattach, Tag: 1, Fid: 0, Afid: wire.NOFID, Uname: "root", Nuname: 0}) {
 			res.Inconclusive = "c06 hangup: setup failed"
-			return res
+			return
 		}
 		var ms []*wire.Msg
 		switch round % 4 {
@@ -1445,14 +1466,16 @@ func c06HangupWhileBinding(ctx *core.Ctx, server string, dotu bool, rounds int) 
 		}
 		_ = c.Send(ms...)
 		c.Hangup()
+		if round%20 == 19 {
+			// the torn-down connections' goroutines end before more are piled on top (the worker has an address-space
+			// limit, and the point here is the moment of the hang-up, not a flood)
+			for t0 := time.Now(); runtime.NumGoroutine() > 150 && time.Since(t0) < 2*time.Second; {
+				time.Sleep(200 * time.Microsecond)
+			}
+		}
 		if round%50 == 49 {
 			h.check("a request binding a new fid, then an immediate hang-up", "hangup-while-binding")
 		}
 	}
 	h.check("a request binding a new fid, then an immediate hang-up", "hangup-while-binding")
-	res.Evals += rounds
-	res.Count("hangups_with_a_binding_request_in_flight", int64(rounds))
-	res.Sig(fmt.Sprintf("hangup-while-binding|%s|%v", server, dotu))
-	res.Sample(map[string]interface{}{"scenario": "Twalk to a new fid / Tattach, immediate hang-up", "server": server, "rounds": rounds})
-	return res
 }
